@@ -137,4 +137,29 @@ example : nameOffsets 0 [[104, 97], [104], []] = [0, 3, 5] ∧ stringAt (table [
 example : decodeVis (visOffsets 0 [[], [7, 8], [], [9]]) (visData [[], [7, 8], [], [9]]) = [[], [7, 8], [], [9]] := by decide
 example : rootCounts [("MOMT", 128), ("MOGI", 96), ("MODD", 40)] = [2, 3, 0, 0, 1, 1, 0] := by decide
 
+/-! ## conversion of group flags -/
+
+theorem groupFlagMask_mono (lo hi : Nat) (h : lo ≤ hi) : groupFlagMask hi &&& groupFlagMask lo = groupFlagMask lo := by
+  unfold groupFlagMask
+  by_cases h1 : lo < 3 <;> by_cases h2 : lo < 6 <;> by_cases h3 : hi < 3 <;> by_cases h4 : hi < 6 <;>
+    simp only [h1, h2, h3, h4, if_true, if_false] <;> first | decide | omega
+
+/-- CONVERSION KEEPS WHAT BOTH VERSIONS CAN REPRESENT: going to version `lo` by way of any later version `hi` keeps
+    exactly the flags that going to `lo` directly keeps (nothing representable in `lo` is lost on the way up and down),
+    converting twice is converting once, and nothing is ever added -/
+theorem groupFlags_via_later (lo hi flags : Nat) (h : lo ≤ hi) :
+    groupFlagsTo lo (groupFlagsTo hi flags) = groupFlagsTo lo flags := by
+  unfold groupFlagsTo
+  rw [Nat.and_assoc, groupFlagMask_mono lo hi h]
+
+theorem groupFlags_idempotent (to flags : Nat) : groupFlagsTo to (groupFlagsTo to flags) = groupFlagsTo to flags :=
+  groupFlags_via_later to to flags (Nat.le_refl _)
+
+theorem groupFlags_adds_nothing (to flags : Nat) : groupFlagsTo to flags &&& flags = groupFlagsTo to flags := by
+  unfold groupFlagsTo
+  rw [Nat.and_assoc, Nat.and_comm (groupFlagMask to) flags, ← Nat.and_assoc, Nat.and_self]
+
+/-- a Cataclysm-era flag survives MoP → Cataclysm, and is dropped below Cataclysm (non-vacuity of the thresholds) -/
+example : groupFlagsTo 3 0x2C001 = 0x2C001 ∧ groupFlagsTo 2 0x2C001 = 1 ∧ groupFlagsTo 5 0x10000 = 0 ∧ groupFlagsTo 6 0x10000 = 0x10000 := by decide
+
 end Wv.Wmo
